@@ -46,6 +46,7 @@ def leg_t(wd, tier, binary, verdict, stub=""):
     H.cleanup(d["files"])
     d.update(v)
     d["ovf"] = H.leg_overflow(wd, binary, verdict, stub=stub)
+    d["gated"] = H.leg_gated(wd, binary, verdict, stub=stub)
     return d
 
 
@@ -70,9 +71,13 @@ def run(tier):
         "replay_graph": rr["histogram"],
         "trace_validation": {k: tt[k] for k in ("traces", "events", "accepted", "rejected", "suspect")},
         "driver_counts": tt["counts"],
+        "scheduled_concurrency": {"histories": tt["gated"]["counts"].get("gated_histories", 0), "events": tt["gated"]["events"],
+                                  "explained_in_lock_order": tt["gated"]["accepted"] - tt["gated"]["second_order"],
+                                  "explained_in_other_order": tt["gated"]["second_order"], "unexplained": tt["gated"]["rejected"],
+                                  "target_checks": tt["gated"]["counts"].get("gated_target_checks", 0)},
         "amount_overflow": {"traces": tt["ovf"]["traces"], "events": tt["ovf"]["events"], "accepted": tt["ovf"]["accepted"],
                             "rejected": tt["ovf"]["rejected"], "counts": tt["ovf"]["counts"]},
-        "evaluations": rr["steps"] + tt["ovf"]["events"] + tt["events"], "distinct_nontrivial": rr["distinct"] + tt["traces"],
+        "evaluations": rr["steps"] + tt["gated"]["events"] + tt["ovf"]["events"] + tt["events"], "distinct_nontrivial": rr["distinct"] + tt["traces"],
         "rule": "R: one evaluation per spec transition executed on the real host (reply, recorded Contractor/Sectors calls and all balances compared), "
                 "distinct by (action, arguments, resulting state); T: one evaluation per recorded stream step validated by TLC, distinct by trace",
     }
